@@ -1,5 +1,6 @@
 import GSProofs.C20Shared
 import GSProofs.Lemmas.ConcurrentCleanSys
+import GSProofs.Lemmas.ConcurrentCleanRoot
 /-!
 # C20 — the cleanliness hypothesis of `shared_store_follows`, clause by clause
 
@@ -13,15 +14,19 @@ under the hypothesis that the alone run is `CleanAt` at each of its states.  `Cl
 * `miss`   — no block is reported missing that the responder holds (completeness of the SINGLE request,
              property C02).
 
-This file discharges `reg` and `nofail` as INVARIANTS of the alone run, for every store (`st ⊆ rem` is not
-even needed), every link tree whose depth-0 links (for a well-formed tree: the root only) are blocks
-the responder holds, and every schedule of the request's actions (`alone_run_regular`); and it reduces
-`miss` to ONE statement about the END of the alone run (reports only grow: `run_evs_prefix`).  Hence
+This file discharges `reg` and `nofail` as INVARIANTS of the alone run, for every schedule of the request's
+actions: `alone_run_regular` (any store — `st ⊆ rem` is not needed —, any link tree whose depth-0 links
+are blocks the responder holds) and `alone_run_regular_wf` (store ⊆ responder store, any link tree in
+which only the first link has depth 0 — C02's `hdep` —, the root held by the responder OR NOT); and it
+reduces `miss` to ONE statement about the END of the alone run (reports only grow: `run_evs_prefix`).  Hence
 
-* `alone_run_clean_partial`       — `CleanAt` at every prefix of the alone run from the completeness
-                                    clause at its end;
+* `alone_run_clean_partial`, `alone_run_clean_wf_partial` — `CleanAt` at every prefix of the alone run from
+  the completeness clause at its end;
+* `alone_run_clean_root_missing`, `partial_shared_store_root_missing` — FULL strength (no completeness
+  hypothesis) in the region "the responder lacks the root": the only block reported missing is the root;
 * `shared_store_follows_wf_partial`, `partial_shared_store_wf_partial` — `shared_store_follows` /
-  `partial_shared_store_issue_time` with the `CleanAt` hypothesis replaced by that single clause.
+  `partial_shared_store_issue_time` with the `CleanAt` hypothesis replaced by that single clause (and
+  `hdep`).
 
 ## What remains (NOT proved; the full statements)
 
@@ -39,11 +44,8 @@ the responder holds, and every schedule of the request's actions (`alone_run_reg
     theorem alone_result_store_independent : … st ⊆ rem, st' ⊆ rem ⇒ blocksOf / missingOf / deliveredOf of the
         complete alone run over st = those over st' (= the reference traversal `refTrav` over rem)
 
-By `alone_run_clean_partial` the first one is equivalent to its `miss` clause at the end of the run,
-plus the case "the responder lacks the root" (then `st ⊆ rem` says the requestor lacks it too, the
-exchange is root-missing wire, status 34 behind it, and the request ends on the first of them; the
-`nofail` clause holds because the request is no longer running when the 34 arrives — not covered by
-`hd0` below).  The `miss` clause is C02 completeness (`C02.complete_prefix_held`) for the delivery
+By `alone_run_clean_wf_partial` the first one is equivalent to its `miss` clause at the end of the run
+(`hwf`, `hroot0`, `hne`, `hdfs` are needed for that clause only).  The `miss` clause is C02 completeness (`C02.complete_prefix_held`) for the delivery
 discipline of this model — ONE response item per message, executor woken after each, the verifier's
 replay of the local prefix spread over `N` wake-ups, the terminal status in a message of its own — while
 C02's theorems are stated for the whole response ingested as one message before `RetryLastLoad`; what
@@ -111,17 +113,84 @@ theorem alone_run_clean_partial (st : List (Cid × Blk)) (rem : List Cid) (lts :
   exact miss_of_end i (initSys st rem lts keys) (.start i :: σ) (.start i :: τ) (prefix_cons_of _ hτ)
     (fun c p hm => by rw [run_rem]; exact hmiss c p hm)
 
+/-- **C20.alone_run_regular_wf** (clauses `reg` and `nofail` of `CleanAt`, for every link tree in which only
+    the first link has depth 0 — C02's side condition `hdep` — and every local store that is a part of the
+    responder's).  No hypothesis on the root: if the responder holds it, `alone_run_regular` applies; if it
+    does not, the requestor does not hold it either, its executor is parked on the root with nothing loaded,
+    the response is the root-missing entry followed by `RequestFailedContentNotFound`, and the request ends
+    (SkipMe at the root) on the first of the two messages — the failure status never meets a RUNNING request
+    (`RM`, `Lemmas/ConcurrentCleanRoot.lean`). -/
+theorem alone_run_regular_wf (st : List (Cid × Blk)) (rem : List Cid) (lts : List LT) (keys : List (Option Key)) (i : Nat)
+    (hst : ∀ c, (storeGet st c).isSome = true → c ∈ rem)
+    (hdep : ∀ root rest, lts[i]? = some (root :: rest) → ∀ m ∈ rest, m.depth ≠ 0)
+    (τ : List Act) (hτ : ∀ a ∈ τ, a = .resp i ∨ a = .deliver i) :
+    let B := Concurrent.run (initSys st rem lts keys) (.start i :: τ)
+    (∀ r, B.reqs[i]? = some r → r.ctxCancelled = false ∧ (r.phase = .running → r.requestSent = true ∧ r.todo ≠ [])) ∧
+    (∀ (r : Requestor.State) (w : Wire) (ws : List Wire), B.reqs[i]? = some r → r.phase = .running →
+      B.chan[i]? = some (w :: ws) → isFailure w.status = false) := by
+  intro B
+  by_cases hcase : ∃ root rest, lts[i]? = some (root :: rest) ∧ root.depth = 0 ∧ root.cid ∉ rem
+  · obtain ⟨root, rest, hl, hd, hnr⟩ := hcase
+    have hst' : storeGet st root.cid = none := by
+      cases h : storeGet st root.cid with
+      | none => rfl
+      | some b => exact absurd (hst root.cid (by rw [h]; rfl)) hnr
+    have h0 := RM_start st rem lts keys i root rest hl hst'
+    have hrm : RM i root B := RM_run i root hd τ _ (by rw [step_rem]; exact hnr) hτ h0
+    exact RM_regular i root B hrm
+  · have hd0 : ∀ lt, lts[i]? = some lt → ∀ m ∈ lt, m.depth = 0 → m.cid ∈ rem := by
+      intro lt hl m hm hd
+      cases lt with
+      | nil => cases hm
+      | cons root rest =>
+        rcases List.mem_cons.mp hm with rfl | hm
+        · apply Classical.byContradiction
+          intro hnr
+          exact hcase ⟨m, rest, hl, hd, hnr⟩
+        · exact absurd hd (hdep root rest hl m hm)
+    obtain ⟨h1, h2, _⟩ := alone_run_regular st rem lts keys i hd0 τ hτ
+    exact ⟨h1, fun r w ws _ _ hc => h2 (w :: ws) w hc List.mem_cons_self⟩
+
+/-- **C20.alone_run_clean_wf_partial.**  `alone_run_clean_partial` under C02's side condition on the link
+    tree (only the first link has depth 0) and local store ⊆ responder store, the root held or not:
+    `CleanAt` at EVERY prefix of the alone run from its completeness clause at the END of the run. -/
+theorem alone_run_clean_wf_partial (st : List (Cid × Blk)) (rem : List Cid) (lts : List LT) (keys : List (Option Key)) (i : Nat)
+    (σ : List Act) (hσ : ∀ a ∈ σ, a = .resp i ∨ a = .deliver i)
+    (hst : ∀ c, (storeGet st c).isSome = true → c ∈ rem)
+    (hdep : ∀ root rest, lts[i]? = some (root :: rest) → ∀ m ∈ rest, m.depth ≠ 0)
+    (hmiss : ∀ c p, (c, p) ∈ missingOf ((Concurrent.run (initSys st rem lts keys) (.start i :: σ)).evs.getD i []) → c ∉ rem) :
+    ∀ τ, τ <+: σ → CleanAt i (Concurrent.run (initSys st rem lts keys) (.start i :: τ)) := by
+  intro τ hτ
+  have hτ' : ∀ a ∈ τ, a = .resp i ∨ a = .deliver i := fun a ha => hσ a (hτ.subset ha)
+  obtain ⟨h1, h2⟩ := alone_run_regular_wf st rem lts keys i hst hdep τ hτ'
+  refine ⟨h1, h2, ?_⟩
+  exact miss_of_end i (initSys st rem lts keys) (.start i :: σ) (.start i :: τ) (prefix_cons_of _ hτ)
+    (fun c p hm => by rw [run_rem]; exact hmiss c p hm)
+
+/-- the store at the moment request `i` is issued is a part of the responder's store -/
+theorem issueStore_sub (st : List (Cid × Blk)) (rem : List Cid) (lts : List LT) (keys : List (Option Key))
+    (pre : List Act) (hst : ∀ c, (storeGet st c).isSome = true → c ∈ rem) :
+    ∀ c, (storeGet (issueStore st rem lts keys pre) c).isSome = true → c ∈ rem := by
+  have hG : ∀ (σ : List Act) (s : Sys), GOK s → GOK (Concurrent.run s σ) := by
+    intro σ
+    induction σ with
+    | nil => intro s h; exact h
+    | cons a σ ih => intro s h; exact ih _ (GOK_step s a h).1
+  have := (hG pre _ (GOK_init st rem lts keys hst)).store
+  rw [run_rem] at this
+  exact this
+
 /-- **C20.shared_store_follows_wf_partial.**  `shared_store_follows` (every schedule
     `pre ++ start i :: post`, any number of other requests with other dedup keys, all over one shared
-    store ⊆ responder store) with its `CleanAt` hypothesis replaced by: the depth-0 links of request `i`'s
-    tree are held by the responder (`hd0`), and the alone run over the issue-time store has, at its END,
-    reported no block missing that the responder holds (`hmiss`, C02 completeness). -/
+    store ⊆ responder store) with its `CleanAt` hypothesis replaced by: only the first link of request `i`'s
+    tree has depth 0 (`hdep`, C02's side condition), and the alone run over the issue-time store has, at
+    its END, reported no block missing that the responder holds (`hmiss`, C02 completeness). -/
 theorem shared_store_follows_wf_partial (st : List (Cid × Blk)) (rem : List Cid) (lts : List LT) (keys : List (Option Key))
     (i : Nat) (k : Key) (pre post : List Act)
     (hst : ∀ c, (storeGet st c).isSome = true → c ∈ rem)
     (hk : keys.getD i none = some k) (hothers : ∀ j, j ≠ i → keys.getD j none ≠ some k)
     (hpre : ∀ a ∈ pre, Act.idx a ≠ i) (hpost : ∀ a ∈ post, a ≠ .start i)
-    (hd0 : ∀ lt, lts[i]? = some lt → ∀ m ∈ lt, m.depth = 0 → m.cid ∈ rem)
+    (hdep : ∀ root rest, lts[i]? = some (root :: rest) → ∀ m ∈ rest, m.depth ≠ 0)
     (hmiss : ∀ c p, (c, p) ∈ missingOf ((Concurrent.run (initSys (issueStore st rem lts keys pre) rem lts keys)
         (.start i :: onlyOf i post)).evs.getD i []) → c ∉ rem) :
     let A := Concurrent.run (initSys st rem lts keys) (pre ++ .start i :: post)
@@ -130,21 +199,21 @@ theorem shared_store_follows_wf_partial (st : List (Cid × Blk)) (rem : List Cid
     A.chan[i]? = B.chan[i]? ∧ A.resp[i]? = B.resp[i]? ∧
     (∀ c, (storeGet B.store c).isSome = true → (storeGet A.store c).isSome = true) :=
   shared_store_follows st rem lts keys i k pre post hst hk hothers hpre hpost
-    (alone_run_clean_partial (issueStore st rem lts keys pre) rem lts keys i (onlyOf i post)
-      (onlyOf_acts i post hpost) hd0 hmiss)
+    (alone_run_clean_wf_partial (issueStore st rem lts keys pre) rem lts keys i (onlyOf i post)
+      (onlyOf_acts i post hpost) (issueStore_sub st rem lts keys pre hst) hdep hmiss)
 
 /-- **C20.partial_shared_store_wf_partial** (result level).  Distinct dedup keys over the shared store:
     under ANY schedule of the whole system that issues request `i` once and is complete for it, request
     `i` delivers the same nodes, reports the same missing blocks and terminates the same way as under
-    ANY complete schedule of `i` ALONE over its issue-time store — provided the depth-0 links of its tree
-    are held by the responder and the alone run is complete in the sense of C02 (`hmiss`). -/
+    ANY complete schedule of `i` ALONE over its issue-time store — provided only the first link of its
+    tree has depth 0 and the alone run is complete in the sense of C02 (`hmiss`). -/
 theorem partial_shared_store_wf_partial (st : List (Cid × Blk)) (rem : List Cid) (lts : List LT) (keys : List (Option Key))
     (i : Nat) (k : Key) (pre post τ : List Act)
     (hst : ∀ c, (storeGet st c).isSome = true → c ∈ rem)
     (hk : keys.getD i none = some k) (hothers : ∀ j, j ≠ i → keys.getD j none ≠ some k)
     (hpre : ∀ a ∈ pre, Act.idx a ≠ i) (hpost : ∀ a ∈ post, a ≠ .start i)
     (hτ : ∀ a ∈ τ, a = .resp i ∨ a = .deliver i)
-    (hd0 : ∀ lt, lts[i]? = some lt → ∀ m ∈ lt, m.depth = 0 → m.cid ∈ rem)
+    (hdep : ∀ root rest, lts[i]? = some (root :: rest) → ∀ m ∈ rest, m.depth ≠ 0)
     (hmiss : ∀ c p, (c, p) ∈ missingOf ((Concurrent.run (initSys (issueStore st rem lts keys pre) rem lts keys)
         (.start i :: onlyOf i post)).evs.getD i []) → c ∉ rem)
     (c1 : Complete i (Concurrent.run (initSys st rem lts keys) (pre ++ .start i :: post)))
@@ -154,8 +223,56 @@ theorem partial_shared_store_wf_partial (st : List (Cid × Blk)) (rem : List Cid
     finished (Concurrent.run (initSys st rem lts keys) (pre ++ .start i :: post)) i
       = finished (Concurrent.run (initSys (issueStore st rem lts keys pre) rem lts keys) (.start i :: τ)) i :=
   partial_shared_store_issue_time st rem lts keys i k pre post τ hst hk hothers hpre hpost hτ
-    (alone_run_clean_partial (issueStore st rem lts keys pre) rem lts keys i (onlyOf i post)
-      (onlyOf_acts i post hpost) hd0 hmiss) c1 c2
+    (alone_run_clean_wf_partial (issueStore st rem lts keys pre) rem lts keys i (onlyOf i post)
+      (onlyOf_acts i post hpost) (issueStore_sub st rem lts keys pre hst) hdep hmiss) c1 c2
+
+/-- **C20.alone_run_clean_root_missing** (`alone_run_clean` at FULL strength — all three clauses, no
+    completeness hypothesis — in the region "the responder lacks the root").  Local store ⊆ responder
+    store, the first link of request `i`'s tree is a root (depth 0) whose block the responder lacks: the
+    run of `i` alone, under any schedule of its actions, is `CleanAt` at every state — in particular the
+    only block it ever reports missing is the root, which the responder does not hold. -/
+theorem alone_run_clean_root_missing (st : List (Cid × Blk)) (rem : List Cid) (lts : List LT) (keys : List (Option Key))
+    (i : Nat) (root : LNode) (rest : LT)
+    (hst : ∀ c, (storeGet st c).isSome = true → c ∈ rem)
+    (hl : lts[i]? = some (root :: rest)) (hd : root.depth = 0) (hnr : root.cid ∉ rem)
+    (τ : List Act) (hτ : ∀ a ∈ τ, a = .resp i ∨ a = .deliver i) :
+    CleanAt i (Concurrent.run (initSys st rem lts keys) (.start i :: τ)) := by
+  have hst' : storeGet st root.cid = none := by
+    cases h : storeGet st root.cid with
+    | none => rfl
+    | some b => exact absurd (hst root.cid (by rw [h]; rfl)) hnr
+  have h0 := RM_start st rem lts keys i root rest hl hst'
+  have e0 := EV_start st rem lts keys i root rest hl hst'
+  have hn : root.cid ∉ (Concurrent.step (initSys st rem lts keys) (.start i)).rem := by rw [step_rem]; exact hnr
+  have hrm : RM i root (Concurrent.run (initSys st rem lts keys) (.start i :: τ)) := RM_run i root hd τ _ hn hτ h0
+  have hev : EV i root (Concurrent.run (initSys st rem lts keys) (.start i :: τ)) := RM_EV_run i root hd τ _ hn hτ h0 e0
+  obtain ⟨h1, h2⟩ := RM_regular i root _ hrm
+  refine ⟨h1, h2, fun c p hm => ?_⟩
+  rw [hev c p hm, run_rem]
+  exact hnr
+
+/-- **C20.partial_shared_store_root_missing** (`partial_shared_store` without any cleanliness or
+    completeness hypothesis, for a request whose root the responder lacks).  Distinct dedup keys over
+    the shared store ⊆ responder store; every schedule of the whole system that issues request `i` once
+    and is complete for it gives `i` the result (delivered nodes, missing-block errors, termination) of
+    every complete schedule of `i` alone over its issue-time store. -/
+theorem partial_shared_store_root_missing (st : List (Cid × Blk)) (rem : List Cid) (lts : List LT) (keys : List (Option Key))
+    (i : Nat) (k : Key) (pre post τ : List Act) (root : LNode) (rest : LT)
+    (hst : ∀ c, (storeGet st c).isSome = true → c ∈ rem)
+    (hk : keys.getD i none = some k) (hothers : ∀ j, j ≠ i → keys.getD j none ≠ some k)
+    (hpre : ∀ a ∈ pre, Act.idx a ≠ i) (hpost : ∀ a ∈ post, a ≠ .start i)
+    (hτ : ∀ a ∈ τ, a = .resp i ∨ a = .deliver i)
+    (hl : lts[i]? = some (root :: rest)) (hd : root.depth = 0) (hnr : root.cid ∉ rem)
+    (c1 : Complete i (Concurrent.run (initSys st rem lts keys) (pre ++ .start i :: post)))
+    (c2 : Complete i (Concurrent.run (initSys (issueStore st rem lts keys pre) rem lts keys) (.start i :: τ))) :
+    resultOf (Concurrent.run (initSys st rem lts keys) (pre ++ .start i :: post)) i
+      = resultOf (Concurrent.run (initSys (issueStore st rem lts keys pre) rem lts keys) (.start i :: τ)) i ∧
+    finished (Concurrent.run (initSys st rem lts keys) (pre ++ .start i :: post)) i
+      = finished (Concurrent.run (initSys (issueStore st rem lts keys pre) rem lts keys) (.start i :: τ)) i :=
+  partial_shared_store_issue_time st rem lts keys i k pre post τ hst hk hothers hpre hpost hτ
+    (fun τ' hτ' => alone_run_clean_root_missing (issueStore st rem lts keys pre) rem lts keys i root rest
+      (issueStore_sub st rem lts keys pre hst) hl hd hnr τ'
+      (fun a ha => onlyOf_acts i post hpost a (hτ'.subset ha))) c1 c2
 
 /-! ## non-vacuity (test of concrete values)
 
@@ -163,11 +280,22 @@ The system of the example at the end of `C20Shared.lean` (two requests for the D
 one shared store; request 1 is issued when block 7 is already stored): `hd0` holds, the alone run over
 the issue-time store `[(7, 7)]` reports nothing missing, and it is complete. -/
 example :
-    (∀ m ∈ exLT, m.depth = 0 → m.cid ∈ [7, 3]) ∧
+    (∀ m ∈ exLT, m.depth = 0 → m.cid ∈ [7, 3]) ∧ (∀ m ∈ exLT.tail, m.depth ≠ 0) ∧
     missingOf ((Concurrent.run (initSys (issueStore [] [7, 3] [exLT, exLT] [some 1, some 2] shPre) [7, 3] [exLT, exLT] [some 1, some 2])
       (.start 1 :: onlyOf 1 shPost)).evs.getD 1 []) = [] ∧
     (Concurrent.run (initSys (issueStore [] [7, 3] [exLT, exLT] [some 1, some 2] shPre) [7, 3] [exLT, exLT] [some 1, some 2])
       (.start 1 :: onlyOf 1 shPost)).chan.getD 1 [] = [] := by
-  refine ⟨by decide, by decide, by decide⟩
+  refine ⟨by decide, by decide, by decide, by decide⟩
+
+/-- the root-missing exchange (`alone_run_regular_wf` outside `alone_run_regular`): the responder holds
+    only block 3, the requestor nothing; after `start, resp, resp` the failure status 34 is queued behind
+    the root-missing entry while the request is still running; the delivery of the first ends it. -/
+example :
+    ((Concurrent.run (initSys [] [3] [exLT] [some 1]) [.start 0, .resp 0, .resp 0]).chan.getD 0 []).map (·.status) = [14, 34] ∧
+    finished (Concurrent.run (initSys [] [3] [exLT] [some 1]) [.start 0, .resp 0, .resp 0]) 0 = false ∧
+    finished (Concurrent.run (initSys [] [3] [exLT] [some 1]) [.start 0, .resp 0, .resp 0, .deliver 0]) 0 = true ∧
+    missingOf ((Concurrent.run (initSys [] [3] [exLT] [some 1]) [.start 0, .resp 0, .resp 0, .deliver 0, .deliver 0]).evs.getD 0 [])
+      = [(7, [])] := by
+  refine ⟨by decide, by decide, by decide, by decide⟩
 
 end GS.C20
